@@ -60,6 +60,10 @@ EXPLANATION += (
     ' Round 8: the tree used to infer the levels not voted on is the tree as stored (R-PROV/tree-version, rule of C01).'
 )
 
+EXPLANATION += (
+    ' Round 9: node identity of the tree code (R-KEY/node-identity, rule of C10) is shared.'
+)
+
 RULE_TEXT = (
     "one obligation per (file kind, reader, required dataset), per "
     "provenance relation; non-trivial when the reader requires at least "
